@@ -309,6 +309,56 @@ func init() {
 		return exp
 	})
 
+	// a oneof disappears while the message gains as many oneofs as it loses (a renamed oneof; a new oneof; in proto3 a
+	// new `optional` field, whose synthetic oneof counts as one): the deletion is reported all the same
+	c03Reg("oneof-rename", []string{"ONEOF_NO_DELETE"}, oneofSites, func(e *c03Env, st c03Site) []c03Expect {
+		m := e.New.Msg(st.A)
+		newName := freshFieldName(st.B+"_renamed", m.M)
+		for _, fl := range oneofMembers(m.M, st.B) {
+			fl.Oneof = newName
+		}
+		if cmt, ok := m.M.OneofComments[st.B]; ok {
+			delete(m.M.OneofComments, st.B)
+			m.M.OneofComments[newName] = cmt
+		}
+		return []c03Expect{{Rule: "ONEOF_NO_DELETE", AnyOf: []string{st.B}, File: m.File.Path, Spans: []string{msgSpanKey(e.New, m.Full)}}}
+	})
+	c03Reg("oneof-delete-while-adding-oneof", []string{"ONEOF_NO_DELETE", "FIELD_SAME_ONEOF"}, oneofSites, func(e *c03Env, st c03Site) []c03Expect {
+		m := e.New.Msg(st.A)
+		exp := []c03Expect{{Rule: "ONEOF_NO_DELETE", AnyOf: []string{st.B}, File: m.File.Path, Spans: []string{msgSpanKey(e.New, m.Full)}}}
+		for _, fl := range oneofMembers(m.M, st.B) {
+			if fl.Kind == "group" {
+				return nil
+			}
+			fl.Oneof = ""
+			fl.Label = singularLabel(m.File.Syntax)
+			exp = append(exp, c03Expect{Rule: "FIELD_SAME_ONEOF", AnyOf: []string{fl.Name, q(fl.Number)}, File: m.File.Path, Spans: []string{"field:" + m.Full + "." + fl.Name}})
+		}
+		delete(m.M.OneofComments, st.B)
+		oldM := (*gen.Message)(nil)
+		if om := e.Old.Msg(st.A); om != nil {
+			oldM = om.M
+		}
+		if m.File.Syntax == "proto3" && e.R.IntN(2) == 0 {
+			// proto3 optional: a synthetic oneof
+			n := freshFieldNumber(900, m.M, oldM)
+			m.M.Fields = append(m.M.Fields, &gen.Field{Name: freshFieldName("added_optional", m.M, oldM), Number: n, Label: "optional", Kind: "scalar", Type: "string", Comment: "Added."})
+			e.Tag = "proto3-optional"
+		} else {
+			on := freshFieldName("added_choice", m.M, oldM)
+			n := freshFieldNumber(900, m.M, oldM)
+			m.M.Fields = append(m.M.Fields,
+				&gen.Field{Name: freshFieldName(on+"_a", m.M, oldM), Number: n, Kind: "scalar", Type: "string", Oneof: on, Comment: "Added."},
+				&gen.Field{Name: freshFieldName(on+"_b", m.M, oldM), Number: freshFieldNumber(n+1, m.M, oldM), Kind: "scalar", Type: "int32", Oneof: on, Comment: "Added."})
+			if m.M.OneofComments == nil {
+				m.M.OneofComments = map[string]string{}
+			}
+			m.M.OneofComments[on] = "Added choice."
+			e.Tag = "new-oneof"
+		}
+		return exp
+	})
+
 	// extension ranges --------------------------------------------------------------------------
 	usedExtTags := func(x *c03Idx, full string) []int {
 		var out []int
